@@ -27,6 +27,7 @@ Definition rv_equiv (x y : rv V) : Prop :=
   match x, y with
   | RM a, RM b => model_equiv a b
   | RC a, RC b => coll_equiv a b
+  | RBad, RBad => True
   | _, _ => False
   end.
 (* what a client holds vs. what a get serves: "missing" is its own state *)
